@@ -4,9 +4,11 @@
 package iotrace
 
 import (
+	"crypto/sha256"
 	"errors"
 	"fmt"
 	"math/rand"
+	"os"
 	"runtime"
 	"sync"
 	"sync/atomic"
@@ -39,6 +41,9 @@ func (e Event) String() string {
 	return s
 }
 
+// MetaBytes is the number of meaningful bytes at the start of a meta page (page header + meta structure).
+const MetaBytes = 80
+
 // ErrInjected is the error returned by injected faults.
 var ErrInjected = errors.New("verif: injected I/O error")
 
@@ -51,17 +56,20 @@ type Fault struct {
 
 // Tracer is the process-wide hook handler.
 type Tracer struct {
-	mu        sync.Mutex
-	Path      string // only events of this path are recorded/injected ("" = all)
-	KeepData  bool
-	Events    []Event
-	seq       int
-	counting  bool
-	count     int // events seen since arming
-	fault     *Fault
-	Fired     *Event // the event the fault hit
-	armPos    int
-	MetaLimit int64 // offsets below this are meta pages (2 * page size)
+	mu          sync.Mutex
+	Path        string // only events of this path are recorded/injected ("" = all)
+	KeepData    bool
+	BarrierHash bool // record a hash of the real file in the Note of every successful sync event
+	Events      []Event
+	seq         int
+	counting    bool
+	count       int // events seen since arming
+	fault       *Fault
+	Fired       *Event // the event the fault hit
+	armPos      int
+	markPos     int
+	markCount   int
+	MetaLimit   int64 // offsets below this are meta pages (2 * page size)
 
 	// OnAfter is called (with the tracer unlocked) after every successfully
 	// or unsuccessfully performed operation; online monitors hang here.
@@ -153,6 +161,12 @@ func (t *Tracer) after(ev *bolt.VerifIOEvent, err error) {
 		}
 		if t.KeepData && ev.Op == "write" {
 			e.Data = append([]byte(nil), ev.Data...)
+		}
+		if t.BarrierHash && err == nil && (ev.Op == "fdatasync" || ev.Op == "fsync") {
+			if b, rerr := os.ReadFile(ev.Path); rerr == nil {
+				h := sha256.Sum256(b)
+				e.Note = fmt.Sprintf("sha=%x len=%d", h[:8], len(b))
+			}
 		}
 		t.Events = append(t.Events, e)
 	}
@@ -285,7 +299,31 @@ func (t *Tracer) DisarmFault() (counted int, firedOp string, firedOff int64, met
 	}
 	// was a complete meta page write performed since arming?
 	for _, e := range t.Events[t.armPos:] {
-		if e.Op == "write" && e.Err == "" && t.MetaLimit > 0 && e.Off < t.MetaLimit {
+		if e.Op == "write" && t.MetaLimit > 0 && e.Off < t.MetaLimit && (e.Err == "" || e.Size >= MetaBytes) {
+			// complete, or failed only after the meaningful bytes of the meta page had reached the file
+			metaWritten = true
+		}
+	}
+	return
+}
+
+// Mark / SinceMark implement the whole-program fault mode of exec.Injector.
+func (t *Tracer) Mark() {
+	t.mu.Lock()
+	t.markPos = len(t.Events)
+	t.markCount = t.count
+	t.mu.Unlock()
+}
+
+func (t *Tracer) SinceMark() (counted int, firedOp string, firedOff int64, metaWritten bool) {
+	t.mu.Lock()
+	defer t.mu.Unlock()
+	counted = t.count - t.markCount
+	for _, e := range t.Events[t.markPos:] {
+		if e.Inject {
+			firedOp, firedOff = e.Op, e.Off
+		}
+		if e.Op == "write" && t.MetaLimit > 0 && e.Off < t.MetaLimit && (e.Err == "" && firedOp == "" || e.Inject && e.Size >= MetaBytes) {
 			metaWritten = true
 		}
 	}
